@@ -1209,11 +1209,15 @@ def subst(term, f):
     return term
 
 
+# set by the engine to hand out the idiom-independent (inlined) body of a closure, like ctx.ibody does for functions
+CLOSURE_BODY_PROVIDER = None
+
+
 def closure_body(facts, closure_term):
     """(Body, capture-substitution) for a closure aggregate term"""
     assert closure_term[0] == "agg" and closure_term[1].startswith("closure:")
     d = closure_term[1][len("closure:"):]
-    b = get_body(facts, d)
+    b = CLOSURE_BODY_PROVIDER(facts, d) if CLOSURE_BODY_PROVIDER is not None else get_body(facts, d)
     if b is None:
         return None, {}
     caps = b.rec.get("captures", [])
